@@ -19,12 +19,21 @@ import ast
 import os
 
 from .. import translate
-from .moments import _lean_rat, _rat_of_const
+from . import normalize
+from .moments import _lean_rat, _rat_of_const, call_like, inline_temps
 
 LG = "fairlearn/reductions/_exponentiated_gradient/_lagrangian.py"
 GS = "fairlearn/reductions/_grid_search/grid_search.py"
 UP = "fairlearn/reductions/_moments/utility_parity.py"
 BG = "fairlearn/reductions/_moments/bounded_group_loss.py"
+
+# the locals of the pinned source, in order of first binding (normalize.binding_order): what inline_temps must keep and
+# what rename_locals renames to
+CALL_ORACLE_LOCALS = ["signed_weights", "redY", "redW", "redY_unique", "estimator", "oracle_call_start_time"]
+GRID_FIT_LOCALS = ["is_classification_reduction", "objective", "pos_basis", "neg_basis", "neg_allowed",
+                   "objective_in_the_span", "grid", "i", "lambda_vec", "weights", "y_reduction", "y_reduction_unique",
+                   "current_estimator", "oracle_call_start_time", "oracle_call_execution_time", "predict_fct", "loss_fct",
+                   "losses"]
 
 
 def _bad(msg):
@@ -33,7 +42,7 @@ def _bad(msg):
 
 def _parse(repo, rel):
     with open(os.path.join(repo, rel)) as f:
-        return ast.parse(f.read())
+        return normalize.parse(f.read())
 
 
 def _cls(tree, name):
@@ -78,7 +87,7 @@ def _label_expr(node, wname):
             and len(node.args) == 1 and ast.unparse(node.args[0]) == "int" and not node.keywords:
         ind = cmp_of(node.func.value)
         if ind is not None:
-            return ind
+            return f"({_lean_rat(1)} * {ind})"        # bool -> int is `1 * <bool>`: the spelling of the pinned source
     _bad(f"relabelling expression {ast.unparse(node)!r}")
 
 
@@ -126,6 +135,16 @@ def _is_noise(st):
     return False
 
 
+def _noise_targets(stmts):
+    """names assigned by the statements that _is_noise skips (the timing temporaries)"""
+    out = set()
+    for st in stmts:
+        for n in ast.walk(st):
+            if isinstance(n, ast.Assign) and _is_noise(n):
+                out |= _assigned_names(n)
+    return out
+
+
 def _assigned_names(st):
     out = set()
     for n in ast.walk(st):
@@ -151,6 +170,9 @@ def _shortcut(stmts, i, yname, est_name_hint, clone_shapes):
                                                       and ast.unparse(stmts[i].value) == "None")):
         i += 1
     st = stmts[i]
+    if isinstance(st, ast.If) and isinstance(st.test, ast.Compare) and len(st.test.ops) == 1 \
+            and isinstance(st.test.ops[0], ast.Eq) and ast.unparse(st.test.comparators[0]) == f"len({uname})":
+        st.test.left, st.test.comparators = st.test.comparators[0], [st.test.left]      # `1 == len(u)` -> `len(u) == 1`
     if not (isinstance(st, ast.If) and isinstance(st.test, ast.Compare) and len(st.test.ops) == 1
             and ast.unparse(st.test.left) == f"len({uname})" and isinstance(st.test.comparators[0], ast.Constant)
             and isinstance(st.test.comparators[0].value, int) and not isinstance(st.test.comparators[0].value, bool)):
@@ -179,14 +201,17 @@ def _shortcut(stmts, i, yname, est_name_hint, clone_shapes):
     if not (isinstance(k, ast.Subscript) and ast.unparse(k.value) == uname and isinstance(k.slice, ast.Constant)
             and isinstance(k.slice.value, int) and k.slice.value >= 0):
         _bad(f"dummy constant {ast.unparse(k)!r}")
-    if ast.unparse(e.value) not in clone_shapes:
+    if ast.unparse(call_like(e.value, *clone_shapes[1:])) != clone_shapes[0]:
         _bad(f"learner copy {ast.unparse(e.value)!r}")
-    return i + 1, est, when, k.slice.value
+    if uname == est:
+        _bad(f"{est} is both the unique labels and the estimator")
+    return i + 1, est, when, k.slice.value, uname
 
 
 def _lift_call_oracle(fn):
     if [a.arg for a in fn.args.args] != ["self", "lambda_vec"]:
         _bad("_call_oracle(self, lambda_vec) signature changed")
+    inline_temps(fn, CALL_ORACLE_LOCALS)
     stmts = [s for s in fn.body if not _is_noise(s)]
     # 1. signed weights
     st = stmts[0]
@@ -231,7 +256,9 @@ def _lift_call_oracle(fn):
     if "a" not in norm:
         _bad(f"normalisation {ast.unparse(st.value)!r} does not use the weights")
     # 4. shortcut
-    i, est, when, pick = _shortcut(stmts, 4, yv, "estimator", ("clone(estimator=self.estimator, safe=False)",))
+    i, est, when, pick, uname = _shortcut(stmts, 4, yv, "estimator",
+                                          ("clone(estimator=self.estimator, safe=False)", ["estimator", "safe"],
+                                           "clone(estimator=self.estimator, safe=False)"))
     # 5. the fit call and the return
     rest = stmts[i:]
     fit = f"{est}.fit(self.constraints.X, {yv}, **{{self.sample_weight_name: {wv}}})"
@@ -241,21 +268,38 @@ def _lift_call_oracle(fn):
     for s in stmts[4:]:
         if {w, wv, yv} & _assigned_names(s):
             _bad(f"{ast.unparse(s)[:80]!r} re-assigns the labels or weights after they were computed")
+    for s in stmts[i:]:
+        if {est, uname} & _assigned_names(s):
+            _bad(f"{ast.unparse(s)[:80]!r} re-assigns the estimator after it was chosen")
+    if len({w, wv, yv, est, uname}) != 5 or {w, wv, yv, est, uname, "self", "lambda_vec"} & _noise_targets(fn.body):
+        _bad("a timing / bookkeeping statement assigns one of the tracked variables")
+    signed = normalize.lean_prefer(signed, ["(ow + cw)"])
+    norm = normalize.lean_prefer(norm, ["((n * a) / s)"])
     return dict(signed=signed, label=label, abs=absw, norm=norm, when=when, pick=pick)
 
 
 def _lift_grid(fn):
     """the `for i in grid.columns:` loop of GridSearch.fit"""
+    inline_temps(fn, GRID_FIT_LOCALS)
+    fn = normalize.rename_locals(fn, GRID_FIT_LOCALS)
     span = [n for n in ast.walk(fn) if isinstance(n, ast.Assign) and ast.unparse(n.targets[0]) == "objective_in_the_span"]
     if len(span) != 1 or ast.unparse(span[0].value) != "self.constraints.default_objective_lambda_vec is not None":
         _bad("objective_in_the_span is not `self.constraints.default_objective_lambda_vec is not None`")
     isc = [n for n in fn.body if isinstance(n, ast.If)
            and ast.unparse(n.test) == "isinstance(self.constraints, ClassificationMoment)"]
-    if len(isc) != 1:
+    direct = [n for n in fn.body if isinstance(n, ast.Assign)
+              and ast.unparse(n) == "is_classification_reduction = isinstance(self.constraints, ClassificationMoment)"]
+    if len(isc) + len(direct) != 1:
         _bad("classification test not found")
-    flags = [s for s in isc[0].body + isc[0].orelse if isinstance(s, ast.Assign)]
-    if [ast.unparse(s) for s in flags] != ["is_classification_reduction = True", "is_classification_reduction = False"]:
-        _bad("is_classification_reduction assignments changed")
+    if isc:
+        flags = [s for s in isc[0].body + isc[0].orelse if isinstance(s, ast.Assign)]
+        if [ast.unparse(s) for s in flags] != ["is_classification_reduction = True", "is_classification_reduction = False"] \
+                or len(isc[0].body) != 1 or len(isc[0].orelse) != 1:
+            _bad("is_classification_reduction assignments changed")
+    nflag = sum(1 for n in ast.walk(fn) if isinstance(n, ast.Name) and n.id == "is_classification_reduction"
+                and isinstance(n.ctx, ast.Store))
+    if nflag != (2 if isc else 1):
+        _bad("is_classification_reduction is assigned elsewhere")
     loops = [n for n in fn.body if isinstance(n, ast.For) and ast.unparse(n.iter) == "grid.columns"]
     if len(loops) != 1 or not isinstance(loops[0].target, ast.Name):
         _bad("`for i in grid.columns` loop not found")
@@ -298,7 +342,8 @@ def _lift_grid(fn):
     if not (isinstance(e, ast.Assign) and ast.unparse(e.targets[0]) == yv
             and ast.unparse(e.value) == "self.constraints._y_as_series"):
         _bad(f"regression labels {ast.unparse(e)!r}")
-    i, est, when, pick = _shortcut(stmts, 4, yv, "current_estimator", ("copy.deepcopy(self.estimator)",))
+    i, est, when, pick, uname = _shortcut(stmts, 4, yv, "current_estimator",
+                                          ("copy.deepcopy(self.estimator)", ["x", "memo"], "copy.deepcopy(self.estimator)"))
     fit = f"{est}.fit(X, {yv}, **{{self.sample_weight_name: {w}}})"
     fits = [s for s in stmts[i:] if isinstance(s, ast.Expr) and isinstance(s.value, ast.Call)
             and ast.unparse(s.value.func) == f"{est}.fit"]
@@ -307,6 +352,15 @@ def _lift_grid(fn):
     for s in stmts[4:]:
         if {w, yv} & _assigned_names(s):
             _bad(f"{ast.unparse(s)[:80]!r} re-assigns the labels or weights after they were computed")
+    k_fit = stmts.index(fits[0])
+    for s in stmts[i:k_fit]:
+        if {est, uname} & _assigned_names(s):
+            _bad(f"{ast.unparse(s)[:80]!r} re-assigns the estimator after it was chosen")
+    if len({col, lam, w, yv, est, uname}) != 6 or \
+            {col, lam, w, yv, est, uname, "self", "X", "objective_in_the_span", "is_classification_reduction", "objective"} \
+            & _noise_targets(loops[0].body):
+        _bad("a timing / bookkeeping statement assigns one of the tracked variables")
+    signed = normalize.lean_prefer(signed, ["(cw + ow)"])
     return dict(signed=signed, adds=adds, label=label, abs=absw, when=when, pick=pick)
 
 
@@ -328,8 +382,9 @@ def lift_oracle(repo):
     parity_span = _span_flag(_parse(repo, UP), "UtilityParity", ("None",))
     bgt = _parse(repo, BG)
     loss_span = _span_flag(bgt, "ConditionalLossMoment", ("None", "self.prob_attr"))
-    dobj = ast.unparse(_fn(_cls(bgt, "ConditionalLossMoment"), "default_objective").body[-1])
-    if dobj != "return MeanLoss(self.reduction_loss)":
+    dfn = inline_temps(_fn(_cls(bgt, "ConditionalLossMoment"), "default_objective"), ())
+    dobj = ast.unparse(dfn.body[-1])
+    if dobj != "return MeanLoss(self.reduction_loss)" or len(dfn.body) != 1:
         _bad(f"ConditionalLossMoment.default_objective: {dobj!r}")
     eg = _lift_call_oracle(_fn(_cls(_parse(repo, LG), "_Lagrangian"), "_call_oracle"))
     gr = _lift_grid(_fn(_cls(_parse(repo, GS), "GridSearch"), "fit"))
